@@ -187,6 +187,10 @@ impl Property for P {
             "for background cleanup the trace of the cleanup thread depends on the schedule; a planned hit that is not reached means the child simply finishes (counted as 'not reached')".into(),
         ]
     }
+    fn replay_repeats() -> u32 {
+        // the verdict can depend on the OS schedule (background threads)
+        4
+    }
     fn cases(tier: Tier) -> u64 {
         match tier {
             Tier::Quick => 240,
